@@ -44,7 +44,14 @@ def gen_layer(rnd, fresh, optional_marks, extra_args=()):
         if params and rnd.random() < 0.5:
             defs[o][1] = [rnd.choice(sorted(params))]
     metas = sorted(o for o in defs if not defs[o][1] and rnd.random() < 0.15)
-    return {'t': 'transform', 'fields': defs, 'params': params, 'inherit': inh, 'optional': opt, 'meta': metas}
+    d = {'t': 'transform', 'fields': defs, 'params': params, 'inherit': inh, 'optional': opt, 'meta': metas}
+    # the inherit / exclude declaration may come from a Mixin; a layer may define only the @inverse of a name it inherits
+    if rnd.random() < 0.2 and not metas:
+        d['via_mixin'] = True
+    if kind != 'list' and rnd.random() < 0.25:
+        free = [n for n in PUB if n not in defs and (inh is True or n not in inh['exclude'])]
+        d['inverse_only'] = sorted(rnd.sample(free, min(len(free), rnd.randint(1, 2))))
+    return d
 
 
 def gen_stack(rnd, optional_marks):
@@ -166,7 +173,39 @@ def make_split():
 HALVES = []
 
 
+def build_special_transform(d):
+    """a Transform whose __inherit__ / __exclude__ comes from a Mixin, and / or with @inverse fields for names it only inherits"""
+    import types
+    from connectome import Mixin, inverse
+    items = []
+    for name, desc in d.get('params', {}).items():
+        items.append((name, P.make_field(desc)))
+    for name, desc in d['fields'].items():
+        items.append((name, P.make_field(desc, name in d.get('optional', ()), False, False, name in d.get('meta', ()))))
+    for name in d.get('inverse_only', []):
+        items.append((name, inverse(Function(P.sym('s149'), name))))
+    inh = d['inherit']
+
+    def fill_inherit(ns):
+        if isinstance(inh, dict):
+            ns['__exclude__'] = tuple(inh['exclude'])
+        else:
+            ns['__inherit__'] = True if inh is True else tuple(inh)
+
+    def fill_fields(ns):
+        for k, v in items:
+            ns[k] = v
+    if d.get('via_mixin'):
+        M = types.new_class('DeclMixin', (Mixin,), {}, fill_inherit)
+        T = types.new_class('ViaMixin', (Transform, M), {}, fill_fields)
+    else:
+        T = types.new_class('Special', (Transform,), {}, lambda ns: (fill_inherit(ns), fill_fields(ns)))
+    return T()
+
+
 def build_item(d):
+    if d['t'] == 'transform' and (d.get('via_mixin') or d.get('inverse_only')):
+        return build_special_transform(d)
     if d['t'] == 'split':
         if not HALVES:
             HALVES.append(make_split())
@@ -288,8 +327,18 @@ def main():
                 want = (f"$s140('IN',{d['value']!r})" if d['cls'] == 'Scale' else f"$s141('IN',{d['value']!r},{d.get('flag', False)!r})")
                 if got != want:
                     wrong.append({'item': d, 'got': got, 'want': want})
-        # what every operand lists, serves, returns and treats as a property, BEFORE anything is composed
-        before = [observe(o) if hasattr(o, '_compile') else None for o in objs]
+        # what every operand lists, serves, returns and treats as a property, BEFORE anything is composed; for a dataset also what it
+        # hands to a layer that inherits nothing (its persistent fields)
+        def snapshot():
+            snap = [observe(o) if hasattr(o, '_compile') else None for o in objs]
+            if items[0]['t'] in ('src', 'source'):
+                try:
+                    f0 = sorted(items[0]['fields'])[0]
+                    snap.append(observe(objs[0] >> Transform(**{f0: Function(P.sym('s147'), f0)})))
+                except BaseException as e:  # noqa
+                    snap.append('ERR:' + type(e).__name__)
+            return snap
+        before = snapshot()
         try:
             layer = objs[0]
             for o in objs[1:]:
@@ -302,7 +351,15 @@ def main():
             Chain(*objs)
         except BaseException:  # noqa
             pass
-        case['operands_unchanged'] = before == [observe(o) if hasattr(o, '_compile') else None for o in objs]
+        # merging a dataset with another one (here: a Transform used as an inline dataset, which has no persistent fields) changes neither
+        if items[0]['t'] in ('src', 'source'):
+            try:
+                from connectome import Merge
+                inline = Transform(ids=meta(Function(P._const_ids(('zz1', 'zz2')))), **{f: Function(P.sym('s148'), 'id') for f in items[0]['fields']})
+                Merge(objs[0], inline)
+            except BaseException:  # noqa
+                pass
+        case['operands_unchanged'] = before == snapshot()
         if a.brackets:
             vs = []
             for name, mk in brackets(objs, rnd):
@@ -310,7 +367,7 @@ def main():
                     vs.append({'name': name, 'obs': observe(mk())})
                 except BaseException as e:  # noqa
                     vs.append({'name': name, 'obs': {'error': f'{type(e).__name__}: {e}'[:200]}})
-            after = [observe(o) if hasattr(o, '_compile') else None for o in objs]
+            after = snapshot()
             case['variants'] = vs
             case['operands_unchanged'] = case['operands_unchanged'] and before == after
         cases.append(case)
